@@ -1,6 +1,7 @@
 import PybtexModel.Drv.Json
 import PybtexModel.Model.NameFormat
 import PybtexModel.Spec.NameFormat
+import PybtexModel.Model.NameFormatFns
 open Lean
 namespace Pybtex.Drv.C11
 
@@ -53,6 +54,116 @@ def fmtnth (j : Json) : Except String Json := do
   pure (obj [("out", out), ("spec", spec), ("wellformed", Json.bool (Spec.wellformed fmt)),
              ("count", nat (splitNameList names).length)])
 
-def handlers : List (String × (Json → Except String Json)) := [("fmtname", fmtname), ("fmtnth", fmtnth)]
+/-! ### function-level ops (extension): the classes and helpers of names.py one by one -/
+
+def errJ (e : FmtErr) : Json := obj [("error", Json.str (errName e))]
+
+def tieJ : Tie → Json
+  | .none => Json.null
+  | .one => Json.str "~"
+  | .two => Json.str "~~"
+
+def recJ (np : NamePartRec) : Json :=
+  obj [("pre_text", strToJson np.preText),
+       ("format_char", Json.str (match np.formatChar with | none => "" | some c => String.singleton c)),
+       ("abbreviate", Json.bool np.abbreviate), ("delimiter", optJ strToJson np.delimiter),
+       ("post_text", strToJson np.postText), ("tie", tieJ np.tie),
+       ("repr", let r := np.reprList; arr [strToJson r.1, strToJson r.2.1, optJ strToJson r.2.2.1, strToJson r.2.2.2])]
+
+def objJ : FmtObj → Json
+  | .text s => obj [("text", strToJson s), ("eq", Json.bool (decide (FmtObj.text s = FmtObj.text s ∧ FmtObj.text s ≠ FmtObj.text (s ++ ['x']))))]
+  | .part np => recJ np
+
+def optStr (j : Json) (k : String) : Except String (Option Str) :=
+  match j.getObjVal? k with
+  | .ok Json.null => pure none
+  | .ok _ => do pure (some (← getStr j k))
+  | .error _ => pure none
+
+def getPerson (j : Json) : Except String Person := do
+  pure { first := ← getStrList j "first", middle := ← getStrList j "middle", prelast := ← getStrList j "prelast",
+         last := ← getStrList j "last", lineage := ← getStrList j "lineage" }
+
+def resStrJ : Except FmtErr Str → Json
+  | .error e => errJ e
+  | .ok s => obj [("str", strToJson s)]
+
+/-- `NameFormat(fmt).parts`: the objects with their attributes (and what `parse_name_part` returned for them) -/
+def c11parts (j : Json) : Except String Json := do
+  let fmt ← getStr j "fmt"
+  let raw := match parseFormat fmt with
+    | .error e => errJ e
+    | .ok ps => arr (ps.map partJ)
+  let out := match nameFormatParts fmt with
+    | .error e => obj [("error", Json.str (errName e)), ("raw", raw)]
+    | .ok os => obj [("parts", arr (os.map objJ)), ("raw", raw)]
+  pure (obj [("out", out), ("wellformed", Json.bool (Spec.wellformed fmt))])
+
+/-- `NamePart([pre, fc, delim, post])` and, if a person is given, `.format(person)`; `eq` = `__eq__` with
+the part rebuilt from its own `__repr__` list -/
+def c11namepart (j : Json) : Except String Json := do
+  let pre ← getStr j "pre"
+  let fc ← optStr j "fc"
+  let delim ← optStr j "delim"
+  let post ← getStr j "post"
+  let person ← getPerson j
+  let out := match mkNamePart pre fc delim post with
+    | .error e => errJ e
+    | .ok np =>
+      let again := match mkNamePart np.reprList.1 (some np.reprList.2.1) np.reprList.2.2.1 np.reprList.2.2.2 with
+        | .error e => errJ e
+        | .ok np2 => Json.bool (np2.pyEq np)
+      obj [("part", recJ np), ("formatted", resStrJ (np.format person)), ("eq_repr", again)]
+  pure (obj [("out", out)])
+
+/-- `NameFormat(fmt)` on a person given by its five token lists -/
+def c11person (j : Json) : Except String Json := do
+  let fmt ← getStr j "fmt"
+  let person ← getPerson j
+  let spec := match Spec.NameFormat.parse fmt with
+    | none => obj [("malformed", Json.bool true)]
+    | some pieces =>
+      match Spec.NameFormat.formatPieces person pieces with
+      | none => obj [("too_deep", Json.bool true)]
+      | some s => obj [("str", strToJson s)]
+  pure (obj [("out", resStrJ (formatPersonWith person fmt)), ("spec", spec),
+             ("wellformed", Json.bool (Spec.wellformed fmt))])
+
+def optStrJ : Option Str → Json
+  | none => obj [("error", Json.str "BibTeXError")]
+  | some s => obj [("str", strToJson s)]
+
+/-- `join(words, tie, space)`, `tie_or_space(word, tie, space)` for every word, `bibtex_len` -/
+def c11join (j : Json) : Except String Json := do
+  let words ← getStrList j "words"
+  let tie ← getStr j "tie"
+  let space ← getStr j "space"
+  pure (obj [("out", obj [("join", optStrJ (joinNames words tie space)),
+                           ("tie_or_space", arr (words.map fun w => optStrJ (tieOrSpace w tie space)))])])
+
+/-- `bibtex_abbreviate(s, delim)` and `bibtex_first_letter(s)` as C11 uses them -/
+def c11abbr (j : Json) : Except String Json := do
+  let s ← getStr j "s"
+  let delim ← optStr j "delim"
+  pure (obj [("out", obj [("abbreviate", optStrJ (NFChars.bibtexAbbreviateU s delim)),
+                           ("first_letter", optStrJ (NFChars.bibtexFirstLetterU s))])])
+
+/-- the constants of names.py as the model has them (compared with the source on every run) -/
+def c11consts (_ : Json) : Except String Json := do
+  let probe : Str := ['a', 'b']
+  let dflt := fun (ws : List Str) => optStrJ (joinNames ws ['~'] [' '])
+  pure (obj [("out", obj [
+    ("enough_chars", nat enoughChars),
+    ("types", obj (namePartTypes.map fun p => (String.singleton p.1, Json.str p.2))),
+    ("get_part", obj (namePartTypes.map fun p =>
+        (String.singleton p.1,
+         optJ strs (Person.getPart { first := [['1']], middle := [['2']], prelast := [['3']], last := [['4']], lineage := [['5']] } p.1)))),
+    ("legal_letters", strToJson legalFormatLetters),
+    ("abbreviate_default_delimiter", optStrJ (NFChars.bibtexAbbreviateU ['a', '-', 'b'] none)),
+    ("join_defaults", arr [dflt [probe, probe], dflt [probe, probe, probe], dflt [['a', 'b', 'c'], probe, probe]])])])
+
+def handlers : List (String × (Json → Except String Json)) :=
+  [("fmtname", fmtname), ("fmtnth", fmtnth), ("c11parts", c11parts), ("c11namepart", c11namepart),
+   ("c11person", c11person), ("c11join", c11join), ("c11abbr", c11abbr), ("c11consts", c11consts)]
 
 end Pybtex.Drv.C11
